@@ -73,7 +73,7 @@ def tlc_phase(rep, quick, seed):
         return tlc.run_tlc(COMP, "ServiceAbs", cfg, workers=1, timeout=1500)
 
     def sim():
-        return tlc.run_tlc(COMP, "ServiceAbs", "Abs_sim.cfg", workers=1, simulate=dict(num=350 if quick else 12000),
+        return tlc.run_tlc(COMP, "ServiceAbs", "Abs_sim.cfg", workers=1, simulate=dict(num=350 if quick else 6000),
                            depth=20, seed=seed, timeout=1500)
 
     mcfg = "Abs_matrix_q.cfg" if quick else "Abs_matrix.cfg"
@@ -105,9 +105,8 @@ def tlc_phase(rep, quick, seed):
         return None
     races = sc.maximal(races_r.tagged.get("BEH", []))
     matrix = sc.maximal(matrix_r.tagged.get("BEH", []))
-    behs = (races if not quick else sc.sample(races, 700, seed)) + (matrix if not quick else sc.sample(matrix, 1400, seed))
-    if not quick:
-        rep.cov["exhaustive"] = True
+    behs = (races if not quick else sc.sample(races, 700, seed)) + sc.sample(matrix, 1400 if quick else 20000, seed)
+    rep.cov["matrix_behaviours"] = dict(maximal_edge_behaviours=len(matrix), replayed=min(len(matrix), 1400 if quick else 20000))
     behs += sim_r.tagged.get("BEH", [])
     return behs, races
 
@@ -159,9 +158,8 @@ def run(rep, tier, seed, replay_file=None):
     # 3. code -> model: the event logs of the replays and un-stepped concurrent histories
     hists = [results[i]["hist"] for i in sorted(results) if results[i].get("ok") and not results[i].get("inconclusive")
              and results[i].get("hist")]
-    if quick:
-        hists = sc.sample(hists, 400, seed)
-    n = 180 if quick else 6000
+    hists = sc.sample(hists, 400 if quick else 4000, seed)
+    n = 180 if quick else 3000
     shards = 6
     import concurrent.futures as cf
     rec = []
